@@ -79,8 +79,11 @@ def run(ctx):
     hist = {"calls": 0, "calls_with_errors": 0, "calls_with_warnings": 0, "dump_compared": 0, "paired_tables": 0,
             "switch_change_sequences": 0}
     for i in range(ninputs):
-        inp, users = gi.stream_input(ctx.rng, force_long=(ctx.rng.choice([4096, 4097, 5000, 8192, 9000]) if i == 0 else None),
-                                     force_no_newline=(i == 1))
+        inp, users, files = gi.stream_input2(ctx.rng, force_long=(ctx.rng.choice([4096, 4097, 5000, 8192, 9000]) if i == 0 else None),
+                                             force_no_newline=(i == 1))
+        prelude = [f"write {tracelib.hx(k)} {tracelib.hx(v)}" for k, v in files.items()]
+        tracelib.CURRENT_FILES = files
+        hist["inputs_with_include"] = hist.get("inputs_with_include", 0) + (1 if files else 0)
         confs = ctx.rng.sample(allbits, min(nconf, len(allbits)))
         ref_tables = {}          # position of the call within its instance's history -> (tables, cfg)
         # consecutive calls on one instance, switches changed between calls (groups of 4)
@@ -88,7 +91,7 @@ def run(ctx):
             grp = confs[g:g + 4]
             cur = ctx.rng.choice(list(users) + [1])
             calls = [(cfg_from_bits(b, users, cur), inp) for b in grp]
-            results = tracelib.run_calls(ctx, exe, calls)
+            results = tracelib.run_calls(ctx, exe, calls, prelude=prelude)
             hist["switch_change_sequences"] += 1
             if "crash" in results[0]:
                 ctx.violation("harness run crashed / gave no result", {"input": inp, "result": results[0]})
@@ -127,6 +130,7 @@ def run(ctx):
             ctx.sample({"input": inp[:500], "first_config": tracelib.cfg_json(cfg_from_bits(confs[0], users, 1))})
         if ctx.violations:
             break
+    tracelib.CURRENT_FILES = {}
     if not ctx.violations:
         evals += inverse_pairs(ctx, exe, hist)
     if not ctx.violations:
@@ -239,7 +243,7 @@ def replay(ctx, data):
 
 
 MANIFEST = dict(
-    technique='Lean 4 theorems on the message-routing model (file = string, disabled sink empty, getline lines, error file contains error string); event-trace correspondence over switch configurations',
-    text="Theorems (Properties/Route.lean) hold for every event trace and switch state. Tie: every call's recorded PHRQ_io event stream replayed through the model, all views (strings, line accessors incl. out-of-range, files read back from disk) compared, over sampled (quick) or all (thorough) switch combinations with switch changes between consecutive calls; paired runs compare value tables across configurations.",
-    note="Trusted: as C05. Dump stream has no PHRQ_io events: dump file vs dump string is a direct oracle only. 'Switches never change computed results' is exploration (paired runs), not a theorem.",
+    technique='Lean 4 theorems on the message-routing model within a call and across calls (file = string, disabled sink untouched, getline lines, error file contains error string, dump stream state machine); event-trace and multi-call history correspondence over switch configurations',
+    text="Theorems (Properties/Route.lean) hold for every event trace, switch state and history of calls: msgs_file_eq_string, punch_file_eq_string, history_sel_file_eq_string, call_msg_streams (file re-created only when its switch is on, untouched otherwise), history_sel_file_untouched / _unopened, call_views_forget, run_views_last, call_lines_spec, lineAt_spec, errfile_contains_errstring, dump_both_on_identical (every history of simulations with DUMP / DUMP -append / no DUMP while both dump switches stay on), dump_disabled_nothing, dump_append_semantics, dump_one_shot; witnesses for what the code does not guarantee (reopen_after_text_differs, heading_before_open_differs, dump_print_off_differs). Tie: every call's recorded PHRQ_io event stream replayed through the model, all views (strings, line accessors incl. out-of-range, files read back from disk) compared, over sampled (quick) or all (thorough) switch combinations with switch changes between consecutive calls; histories of calls with DIFFERENT inputs judged by the history model with files compared whatever the switch says; dump_info state and the number of dumps held by file and string after every call compared with the dump model; paired runs compare value tables across configurations.",
+    note="Trusted: as C05. The dump text itself never passes PHRQ_io: the model carries one opaque token per simulation, the tie compares dump_info (on / selection / append), the number of dumps in each sink, unchanged-ness and file = string. PRINT -dump false is not generated (the string sink ignores it: witness theorem, reported). 'Switches never change computed results' is exploration (paired runs), not a theorem.",
 )
